@@ -327,6 +327,15 @@ func matchCollectionName(sampleCollection, targetCollection string) (bool, bool)
 		db1 == cdcreader.AllDatabase || collection1 == cdcreader.AllCollection
 }
 
+// isPartialWildcardOverlap reports whether the two specifications are "*.x" and "db.*" (either way round):
+// they meet in db.x, neither contains the other, and no exclusion entry can carve db.x out of either task.
+func isPartialWildcardOverlap(a, b string) bool {
+	da, ca := util.GetCollectionNameFromFull(a)
+	db, cb := util.GetCollectionNameFromFull(b)
+	return (da == cdcreader.AllDatabase && ca != cdcreader.AllCollection && db != cdcreader.AllDatabase && cb == cdcreader.AllCollection) ||
+		(db == cdcreader.AllDatabase && cb != cdcreader.AllCollection && da != cdcreader.AllDatabase && ca == cdcreader.AllCollection)
+}
+
 func (e *MetaCDC) checkDuplicateCollection(uKey string,
 	newCollectionNames []string,
 	extraInfo model.ExtraInfo,
@@ -352,6 +361,10 @@ func (e *MetaCDC) checkDuplicateCollection(uKey string,
 			for _, name := range names {
 				match, containAny := matchCollectionName(name, newCollectionName)
 				if match && containAny && !lo.Contains(e.collectionNames.excludeData[uKey], newCollectionName) {
+					duplicateCollections = append(duplicateCollections, newCollectionName)
+					break
+				}
+				if isPartialWildcardOverlap(name, newCollectionName) {
 					duplicateCollections = append(duplicateCollections, newCollectionName)
 					break
 				}
